@@ -68,7 +68,7 @@ impl<'a> Eng<'a> {
         compare_verdict(sc, &rv, &info, &run.verdict, &mut issues);
         let exp = expected_obs(&info);
         check_beacons(sc, &rv, &info, &run, &exp, &mut issues);
-        let (compared, matched) = check_node_inputs(&rv, &obs, &mut issues);
+        let (compared, matched) = check_node_inputs(&rv, &obs, &run.beacons, &mut issues);
         // a solution whose graph is cyclic / malformed must be rejected before any of its nodes runs
         if let RefVerdict::Err { failing, .. } = &rv {
             for (si, f) in failing {
@@ -77,7 +77,7 @@ impl<'a> Eng<'a> {
                     let unique = (0..sc.solutions.len()).filter(|j| sc.tag(*j) == tag).count() == 1;
                     let ran = obs.iter().filter(|o| o.phase == 1 && o.tag == tag).count();
                     if unique && ran > 0 {
-                        issues.push(Issue { property: "C01", kind: "partial-evaluation", detail: format!("solution {si} has a cyclic or malformed graph but {ran} of its node programs were started") });
+                        issues.push(Issue { property: "C01", kind: "partial-evaluation", detail: format!("solution {si} has a cyclic or malformed graph but {ran} of its node programs were started"), seq: u64::MAX });
                     }
                     self.rep.count("invalid_graphs_checked_for_partial_evaluation");
                 }
@@ -122,12 +122,21 @@ impl<'a> Eng<'a> {
             }
             self.rep.count("returned_sets_revalidated");
             if sol::check_set_state_mutations(&set).is_err() && sol::check_set_state_mutations(&sc.set()).is_ok() {
-                issues.push(Issue { property: "C16", kind: "returned-set-invalid", detail: "the returned solution set mutates a key twice in one solution".into() });
+                issues.push(Issue { property: "C16", kind: "returned-set-invalid", detail: "the returned solution set mutates a key twice in one solution".into(), seq: u64::MAX });
             }
         }
-        // attribution: a wrong post-state read explains downstream verdict differences
-        let has_c03 = issues.iter().any(|i| i.property == "C03");
+        // attribution by causality: what a program reads from post-state depends on the mutations computed
+        // from earlier nodes' data, and what a node receives depends on what its ancestors read. The
+        // anomaly that became visible first is the cause; later ones of the other kind are its consequences.
+        let first_c03 = issues.iter().filter(|i| i.property == "C03" && i.kind == "observed-values").map(|i| i.seq).min();
+        let first_c01 = issues.iter().filter(|i| i.property == "C01" && i.kind == "node-input").map(|i| i.seq).min();
+        let c03_is_consequence = matches!((first_c01, first_c03), (Some(a), Some(b)) if a < b);
+        let has_c03 = issues.iter().any(|i| i.property == "C03") && !c03_is_consequence;
         for i in issues {
+            if c03_is_consequence && i.property == "C03" && i.kind == "observed-values" {
+                self.rep.count("suppressed.c03_downstream_of_c01");
+                continue;
+            }
             if has_c03 && i.property == "C01" && i.kind != "executed-twice" {
                 self.rep.count("suppressed.c01_downstream_of_c03");
                 continue;
